@@ -133,7 +133,7 @@ def run_lint_jobs(ctx, lintbin, jobs, nproc):
     def one(chunk):
         if not chunk:
             return []
-        inp = "".join(json.dumps({k: v for k, v in j.items() if k not in ("variant", "weight")}) + "\n" for j in chunk)
+        inp = "".join(json.dumps({k: v for k, v in j.items() if k in ("id", "dir", "patterns", "tests", "env", "typecheck", "only")}) + "\n" for j in chunk)
         env = vlib.go_env({"GOMAXPROCS": str(max(4, vlib.NCPU // 2))})
         p = subprocess.run([lintbin, "-cache", cache], input=inp, stdout=subprocess.PIPE, stderr=subprocess.PIPE,
                            text=True, env=env, timeout=3000)
@@ -161,10 +161,11 @@ class FileInfo:
         st = [0]
         i = data.find(b"\n")
         while i >= 0:
-            if i + 1 <= len(data):
+            if i + 1 < len(data):
                 st.append(i + 1)
             i = data.find(b"\n", i + 1)
-        # go/token: a line start is recorded after every '\n', also at EOF
+        # go/token: a line start is recorded after every '\n' that is not the last byte
+        # (File.AddLine ignores offsets >= size); the last line extends to the end of file
         self.starts = st
         self.has_line_directive = b"//line " in data or b"/*line " in data
 
@@ -300,19 +301,21 @@ def validate_job(ctx, job, out, files, acc):
                 if not (0 <= s <= t <= efi.size):
                     fails.append(Failure("edit-bounds", d["cat"], job, d, fx, "edit [%d,%d) outside file of size %d" % (s, t, efi.size), k))
                     bad = True
-                spans.append((s, t, len(base64.b64decode(e["new"] or ""))))
+                spans.append((s, t, base64.b64decode(e["new"] or "")))
             if bad:
                 continue
             ss = sorted(spans)
             for a, b in zip(ss, ss[1:]):
-                if b[0] < a[1] or (a[0] == b[0] and a[1] == b[1] and a[0] == a[1] and False):
+                if b[0] < a[1]:
                     fails.append(Failure("edit-overlap", d["cat"], job, d, fx, "edits [%d,%d) and [%d,%d) overlap" % (a[0], a[1], b[0], b[1]), k))
                     bad = True
                     break
-            acc["edit_lines"].append((efi.size, spans, (fx.get("oracle") or {}).get("newsize"), (fx.get("oracle") or {}).get("status")))
+            o = fx.get("oracle")
+            acc["fix_records"].append({"file": ef, "cat": d["cat"], "spans": spans, "oracle_wf": oracle_wf(efi.size, spans),
+                                       "newsize": (o or {}).get("newsize"), "newhash": (o or {}).get("newhash"),
+                                       "realdiff": (o or {}).get("realdiff")})
             if bad:
                 continue
-            o = fx.get("oracle")
             if not o:
                 continue
             st = o["status"]
@@ -363,7 +366,7 @@ def flagged_text(files, d):
 def new_acc():
     return {"packages": 0, "packages_failed": 0, "failed_pkgs": [], "diagnostics": 0, "by_cat": {}, "nontrivial": set(),
             "exempt_line_directive": 0, "with_end": 0, "fixes": 0, "fix_by_cat": {}, "fixes_without_edits": 0,
-            "oracle_status": {}, "imports_dropped": 0, "imports_added": 0, "pos_lines": [], "edit_lines": []}
+            "oracle_status": {}, "imports_dropped": 0, "imports_added": 0, "pos_lines": [], "fix_records": []}
 
 
 def explore(ctx):
@@ -410,8 +413,1133 @@ def explore(ctx):
     print("failures", len(seen), time.time() - t0)
 
 
+# --------------------------------------------------------------------------- model ties
+def fnv64(b):
+    h = 14695981039346656037
+    for c in b:
+        h = ((h ^ c) * 1099511628211) & 0xFFFFFFFFFFFFFFFF
+    return h
+
+
+def hexb(b):
+    return b.hex() if b else "-"
+
+
+def tie_positions(ctx, files, acc, maxfiles=None):
+    """Lean `position (fileOf bytes) off` against the line/column the real runner reported
+    (go/token through report.DisplayPosition) for every reported offset."""
+    byfile = {}
+    for rec in acc["pos_lines"]:
+        if rec[0] == "pos":
+            _, f, off, line, col = rec
+            byfile.setdefault(f, {})[off] = (line, col)
+        else:
+            _, f, _s, eoff, line, col = rec
+            byfile.setdefault(f, {})[eoff] = (line, col)
+    names = sorted(byfile)
+    if maxfiles and len(names) > maxfiles:
+        names = vlib.SplitMix(ctx.seed).fork("posfiles").shuffle(names)[:maxfiles]
+    lines, meta = [], []
+    for f in names:
+        fi = get_file(files, f)
+        if fi is None or fi.has_line_directive:
+            continue
+        offs = sorted(byfile[f])
+        lines.append("pos %s %d %s" % (hexb(fi.data), len(offs), " ".join(map(str, offs))))
+        meta.append((f, offs))
+    out = vlib.run_model(ctx, "C16", lines) if lines else []
+    diffs, n = [], 0
+    for (f, offs), o in zip(meta, out):
+        if o == "bad-op":
+            raise vlib.HarnessError("model rejected pos line for " + f)
+        w = o.split()
+        fi = get_file(files, f)
+        if int(w[1]) != fi.size:
+            diffs.append({"file": rel_to_corpus(ctx, f), "what": "size", "model": w[1], "impl": fi.size})
+        for off, lc in zip(offs, w[2:]):
+            n += 1
+            impl = "%d:%d" % byfile[f][off]
+            if lc != impl:
+                diffs.append({"file": rel_to_corpus(ctx, f), "offset": off, "model": lc, "impl": impl})
+    return n, diffs
+
+
+def tie_edits(ctx, files, acc):
+    """Lean applyGo / applySorted∘sortEdits / applySeq against testutil.applyEdits (run by
+    c16lint on the real fixes) and the model's well-formedness verdict against the oracle's."""
+    byfile = {}
+    for rec in acc["fix_records"]:
+        byfile.setdefault(rec["file"], []).append(rec)
+    lines, meta = [], []
+    for f in sorted(byfile):
+        fi = get_file(files, f)
+        recs = byfile[f]
+        toks = []
+        for r in recs:
+            toks.append(str(len(r["spans"])))
+            for (s_, t_, nw) in r["spans"]:
+                toks += [str(s_), str(t_), hexb(nw)]
+        lines.append("apply %s %d %s" % (hexb(fi.data), len(recs), " ".join(toks)))
+        meta.append(recs)
+    out = vlib.run_model(ctx, "C16", lines) if lines else []
+    diffs, n, apart = [], 0, 0
+    for recs, o in zip(meta, out):
+        if o == "bad-op":
+            raise vlib.HarnessError("model rejected apply line")
+        for r, part in zip(recs, o.split(";")):
+            n += 1
+            wf, ap, ln, hgo, hspec, hseq = part.split()
+            apart += ap == "1"
+            d = {}
+            if (wf == "1") != r["oracle_wf"]:
+                d["wellformed"] = {"model": wf, "oracle": r["oracle_wf"]}
+            if r["oracle_wf"]:
+                if r["newhash"] not in (None, "") and (str(r["newsize"]) != ln or r["newhash"] != hgo):
+                    d["testutil.applyEdits"] = {"impl_len_hash": [r["newsize"], r["newhash"]], "model_applyGo": [ln, hgo]}
+                if hgo != hspec:
+                    d["spec"] = {"applyGo": hgo, "applySorted": hspec}
+                if hseq != "-" and hseq != hspec:
+                    d["applySeq"] = {"applySeq": hseq, "applySorted": hspec}
+                if r.get("realdiff"):
+                    d["harness_splice_vs_testutil"] = True
+            if d:
+                d.update({"file": rel_to_corpus(ctx, r["file"]), "cat": r["cat"], "spans": [(a, b, len(c)) for a, b, c in r["spans"]]})
+                diffs.append(d)
+    return n, apart, diffs
+
+
+def gen_edit_cases(rng, n):
+    """random texts with random edit sets: mostly well-formed (touching edits, insertions at
+    both ends, deletions), listed in random order."""
+    cases = []
+    for i in range(n):
+        size = rng.below(40) if rng.chance(3, 4) else rng.below(400)
+        src = bytes(rng.below(26) + 97 for _ in range(size))
+        k = rng.below(7)
+        cuts = sorted(rng.below(size + 1) for _ in range(2 * k))
+        edits = []
+        for j in range(k):
+            s_, t_ = cuts[2 * j], cuts[2 * j + 1]
+            if rng.chance(1, 5):
+                t_ = s_
+            nw = bytes(rng.below(26) + 65 for _ in range(rng.below(5) if rng.chance(3, 4) else rng.below(30)))
+            edits.append((s_, t_, nw))
+        # drop exact duplicates of empty edits at one offset (not well-formed: unordered)
+        mode = rng.below(10)
+        if mode == 0 and edits:           # make it overlap
+            s_, t_, nw = rng.choice(edits)
+            edits.append((max(0, s_ - 1), min(size, t_ + 1), b"ZZ"))
+        elif mode == 1 and edits:         # out of bounds
+            edits.append((size, size + 1 + rng.below(3), b"Q"))
+        edits = rng.shuffle(edits)
+        cases.append((src, edits))
+    return cases
+
+
+def oracle_wf(size, spans):
+    """the statement's clause on a fix: every edit within bounds, no two overlap; two empty
+    edits at one offset (unordered insertions) count as overlapping."""
+    for (s_, t_, _n) in spans:
+        if not (0 <= s_ <= t_ <= size):
+            return False
+    ss = sorted((a, b) for a, b, _ in spans)
+    for a, b in zip(ss, ss[1:]):
+        if b[0] < a[1] or (a == b and a[0] == a[1]):
+            return False
+    return True
+
+
+def tie_generated_edits(ctx, applybin, n):
+    rng = vlib.SplitMix(ctx.seed).fork("edits")
+    cases = gen_edit_cases(rng, n)
+    lines = []
+    for src, edits in cases:
+        lines.append("apply %s 1 %d %s" % (hexb(src), len(edits), " ".join("%d %d %s" % (a, b, hexb(c)) for a, b, c in edits)))
+    rc, so, se = vlib.run([applybin], input="\n".join(lines) + "\n", env=vlib.go_env(), timeout=600)
+    if rc != 0:
+        raise vlib.HarnessError("c16apply failed: " + se[-2000:])
+    impl = so.splitlines()
+    model = vlib.run_model(ctx, "C16", lines)
+    if len(impl) != len(lines):
+        raise vlib.HarnessError("c16apply: %d outputs for %d inputs" % (len(impl), len(lines)))
+    diffs, hist = [], {"wf": 0, "not_wf": 0, "apart": 0, "touching": 0}
+    for (src, edits), line, io, mo in zip(cases, lines, impl, model):
+        if mo == "bad-op" or io == "bad-op":
+            raise vlib.HarnessError("bad-op on generated edit case: " + line[:200])
+        wf, ap, ln, hgo, hspec, hseq = mo.split()
+        ow = oracle_wf(len(src), edits)
+        hist["wf" if ow else "not_wf"] += 1
+        hist["apart"] += ap == "1"
+        ss = sorted((a, b) for a, b, _ in edits)
+        hist["touching"] += any(x[1] == y[0] for x, y in zip(ss, ss[1:]))
+        d = {}
+        if (wf == "1") != ow:
+            d["wellformed"] = {"model": wf, "oracle": ow}
+        if ow:
+            if io != "%s %s" % (ln, hgo):
+                d["testutil.applyEdits"] = {"impl": io, "model_applyGo": "%s %s" % (ln, hgo)}
+            if hgo != hspec:
+                d["spec"] = {"applyGo": hgo, "applySorted": hspec}
+            if hseq != "-" and hseq != hspec:
+                d["applySeq"] = {"applySeq": hseq, "applySorted": hspec}
+            exp = bytearray()
+            last = 0
+            for a, b, c in sorted(edits):
+                exp += src[last:a] + c
+                last = b
+            exp += src[last:]
+            if "%d %d" % (len(exp), fnv64(exp)) != io:
+                d["oracle_splice"] = {"impl": io, "expected": "%d %d" % (len(exp), fnv64(exp))}
+        if d:
+            d["input"] = line
+            diffs.append(d)
+    return len(cases), hist, diffs, lines[:3]
+
+
+def tie_short(ctx, applybin, gofiles):
+    """report.shortRange (real, via go:linkname) against the Lean case table on every
+    statement-like node (and every 8th other node) of the given files; the parser
+    invariants `Inv` are validated by the model's invB; oracle: pos ≤ end ≤ node end."""
+    rc, so, se = vlib.run([applybin], input="".join("shortfile %s\n" % f for f in gofiles), env=vlib.go_env(), timeout=900)
+    if rc != 0:
+        raise vlib.HarnessError("c16apply shortfile failed: " + se[-2000:])
+    recs = []
+    fidx = 0
+    for l in so.splitlines():
+        if l.startswith("end "):
+            fidx += 1
+            continue
+        desc, res = l[len("short "):].split(" = ")
+        recs.append((gofiles[fidx], desc, res))
+    model = vlib.run_model(ctx, "C16", ["short " + d for _, d, _ in recs]) if recs else []
+    diffs, viol, kinds, invfail = [], [], {}, []
+    for (f, desc, res), mo in zip(recs, model):
+        if mo == "bad-op":
+            raise vlib.HarnessError("model rejected node descriptor: " + desc)
+        k = desc.split()[0]
+        if k == "exprStmt":
+            k = "exprStmt/" + desc.split()[1]
+        kinds[k] = kinds.get(k, 0) + 1
+        inv, mp, me = mo.split()
+        p, e = map(int, res.split())
+        toks = desc.split()
+        nend = int(toks[-1])
+        npos = int([t for t in toks if t.isdigit()][0])
+        if inv != "1":
+            invfail.append({"file": f, "node": desc})
+        if (mp, me) != (str(p), str(e)):
+            diffs.append({"file": f, "node": desc, "impl": res, "model": "%s %s" % (mp, me)})
+        if not (p == npos and p <= e <= nend):
+            viol.append({"file": f, "node": desc, "shortRange": res, "why": "short range not within the node (pos %d end %d)" % (npos, nend)})
+    return len(recs), kinds, diffs, viol, invfail
+
+
+def gen_pos_cases(rng, n):
+    cases = []
+    for i in range(n):
+        size = rng.below(60) if rng.chance(3, 4) else rng.below(600)
+        alphabet = [b"a", b"b", b" ", b"\n", b"\n", b"\r\n", b"\t", b"x", b"/", b"*", b"\"", b"`"]
+        buf = b"".join(rng.choice(alphabet) for _ in range(size))
+        offs = sorted(set([0, len(buf)] + [rng.below(len(buf) + 1) for _ in range(6)]))
+        cases.append((buf, offs))
+    return cases
+
+
+def tie_generated_pos(ctx, applybin, n):
+    rng = vlib.SplitMix(ctx.seed).fork("pos")
+    cases = gen_pos_cases(rng, n)
+    lines = ["pos %s %d %s" % (hexb(b), len(o), " ".join(map(str, o))) for b, o in cases]
+    rc, so, se = vlib.run([applybin], input="\n".join(lines) + "\n", env=vlib.go_env(), timeout=600)
+    if rc != 0:
+        raise vlib.HarnessError("c16apply pos failed: " + se[-2000:])
+    impl = so.splitlines()
+    model = vlib.run_model(ctx, "C16", lines)
+    diffs, viol = [], []
+    for (buf, offs), line, io, mo in zip(cases, lines, impl, model):
+        if io != mo:
+            diffs.append({"input": line, "impl(go/scanner+go/token)": io, "model": mo})
+        fi = FileInfo.__new__(FileInfo)
+        fi.data, fi.size, fi.has_line_directive = buf, len(buf), False
+        st = [0]
+        j = buf.find(b"\n")
+        while j >= 0:
+            if j + 1 < len(buf):
+                st.append(j + 1)
+            j = buf.find(b"\n", j + 1)
+        fi.starts = st
+        for off, lc in zip(offs, io.split()[2:]):
+            l_, c_ = map(int, lc.split(":"))
+            why = check_position(fi, {"line": l_, "col": c_, "off": off})
+            if why:
+                viol.append({"input": line, "offset": off, "reported": lc, "why": why})
+    return len(cases), diffs, viol
+
+
+# --------------------------------------------------------------------------- generated trigger shapes
+# Executable functions instantiating the trigger shape of a check with random operands
+# (side-effecting calls that log to a trace, operands that may panic, operators of every
+# precedence rendered with minimal parentheses, line breaks and comments inside operands).
+GEN_SUPPORT = """package main
+
+import (
+	"fmt"
+	"os"
+	"strings"
+)
+
+var trace []string
+
+func tb(id int, v bool) bool       { trace = append(trace, fmt.Sprintf("b%d=%v", id, v)); return v }
+func ti(id int, v int) int         { trace = append(trace, fmt.Sprintf("i%d=%v", id, v)); return v }
+func ts(id int, v string) string   { trace = append(trace, fmt.Sprintf("s%d=%q", id, v)); return v }
+func tf(id int, v float64) float64 { trace = append(trace, fmt.Sprintf("f%d=%v", id, v)); return v }
+func tbs(id int, v []byte) []byte  { trace = append(trace, fmt.Sprintf("y%d=%q", id, v)); return v }
+func pb(id int) bool               { trace = append(trace, fmt.Sprintf("p%d", id)); panic(fmt.Sprintf("pb%d", id)) }
+
+type Str string
+type Tick int
+
+func (t Tick) String() string { trace = append(trace, fmt.Sprintf("String(%d)", int(t))); return fmt.Sprintf("T%d", int(t)) }
+
+type Inner struct{ A, B int }
+type Mid struct {
+	Inner
+	C int
+}
+type Outer struct {
+	Mid
+	D int
+}
+
+type In struct {
+	b0, b1, b2 bool
+	i0, i1, i2 int
+	f0, f1     float64
+	s0, s1     string
+	xs         []int
+	bs0, bs1   []byte
+	o          Outer
+}
+
+var inputs = []In{
+	{false, false, false, 0, 0, 0, 0, 1, "", "", nil, nil, nil, Outer{}},
+	{true, false, true, 1, 2, 3, 2, 0.5, "a", "b", []int{1, 2, 3}, []byte("a"), []byte("b"), Outer{Mid{Inner{1, 2}, 3}, 4}},
+	{false, true, false, -1, 1, 0, -3, 2, "ab", "b", []int{0}, []byte("ab"), []byte("ab"), Outer{Mid{Inner{5, 6}, 7}, 8}},
+	{true, true, true, 2, 2, 2, 4, 4, "b", "ab", []int{2, 2}, nil, []byte(""), Outer{}},
+	{true, true, false, 3, 0, -2, 1.5, -2, "abc", "", []int{3, 1, 2, 0}, []byte("abc"), []byte("c"), Outer{Mid{Inner{0, 1}, 0}, 1}},
+	{false, false, true, 0, -1, 5, 0, 0, "", "x", []int{}, []byte("x"), nil, Outer{}},
+	{false, true, true, 4, 3, 1, 8, 0.25, "xa", "a", []int{4, 0, 4}, []byte("b"), []byte("a"), Outer{Mid{Inner{9, 9}, 9}, 9}},
+	{true, false, false, 1, 1, 2, -1, -1, "a", "a", []int{1}, []byte("a"), []byte("a"), Outer{}},
+}
+
+type fn struct {
+	name string
+	f    func(In) string
+}
+
+func main() {
+	for _, f := range funcs {
+		for k, in := range inputs {
+			trace = nil
+			out := func() (out string) {
+				defer func() {
+					if r := recover(); r != nil {
+						out = fmt.Sprintf("PANIC(%v)", r)
+					}
+				}()
+				return "ok:" + f.f(in)
+			}()
+			fmt.Fprintf(os.Stdout, "%s %d %q [%s]\\n", f.name, k, out, strings.Join(trace, " "))
+		}
+	}
+}
+"""
+
+PREC = {"||": 1, "&&": 2, "==": 3, "!=": 3, "<": 3, "<=": 3, ">": 3, ">=": 3, "+": 4, "-": 4, "*": 5, "/": 5, "%": 5}
+
+
+class ExprGen:
+    """random typed Go expressions as (text, precedence); 7 = primary, 6 = unary"""
+
+    def __init__(self, rng, effects=True):
+        self.r = rng
+        self.n = 0
+        self.effects = effects
+
+    def tid(self):
+        self.n += 1
+        return self.n
+
+    def glue(self, op):
+        k = self.r.below(14)
+        if k == 0:
+            return " %s\n\t\t" % op
+        if k == 1:
+            return " %s /* c */ " % op
+        if k == 2:
+            return " %s // c\n\t\t" % op
+        return " %s " % op
+
+    def operand(self, e, minprec):
+        t, p = e
+        if p < minprec or self.r.chance(1, 12) or (minprec == 6 and t.startswith("-")):
+            return "(" + t + ")"
+        return t
+
+    @staticmethod
+    def nonconst(t):
+        """index / slice operands must not be constant expressions (negative constant index is a compile error)"""
+        return t if re.search(r"[a-z]", t) else "i1"
+
+    def binary(self, op, a, b):
+        p = PREC[op]
+        return (self.operand(a, p) + self.glue(op) + self.operand(b, p + 1), p)
+
+    def boolean(self, d):
+        r = self.r
+        k = r.below(11) if d > 0 else r.below(3)
+        if k == 0 or k == 1:
+            return (r.choice(["b0", "b1", "b2"]), 7)
+        if k == 2:
+            if self.effects:
+                return ("tb(%d, %s)" % (self.tid(), r.choice(["b0", "b1", "true", "false"])), 7)
+            return ("b2", 7)
+        if k == 3:
+            return ("!" + self.operand(self.boolean(d - 1), 6), 6)
+        if k == 4:
+            return self.binary("&&", self.boolean(d - 1), self.boolean(d - 1))
+        if k == 5:
+            return self.binary("||", self.boolean(d - 1), self.boolean(d - 1))
+        if k == 6 or k == 7:
+            return self.binary(r.choice(["<", "<=", ">", ">=", "==", "!="]), self.integer(d - 1), self.integer(d - 1))
+        if k == 8:
+            return self.binary(r.choice(["==", "!="]), self.string(d - 1), self.string(d - 1))
+        if k == 9:
+            return self.binary(r.choice(["==", "!="]), self.boolean(d - 1), self.boolean(d - 1))
+        if self.effects and r.chance(1, 3):
+            return ("pb(%d)" % self.tid(), 7)
+        return ("tb(%d, %s)" % (self.tid(), self.boolean(d - 1)[0]), 7) if self.effects else (r.choice(["b0", "b1"]), 7)
+
+    def integer(self, d):
+        r = self.r
+        k = r.below(9) if d > 0 else r.below(3)
+        if k == 0:
+            return (r.choice(["i0", "i1", "i2"]), 7)
+        if k == 1:
+            return (str(r.below(4)), 7)
+        if k == 2:
+            return ("ti(%d, %s)" % (self.tid(), r.choice(["i0", "i1", "2"])), 7) if self.effects else ("i1", 7)
+        if k in (3, 4):
+            return self.binary(r.choice(["+", "-", "*"]), self.integer(d - 1), self.integer(d - 1))
+        if k == 5:
+            return self.binary(r.choice(["/", "%"]), self.integer(d - 1), (r.choice(["i0", "i1", "i2", "xs[0]", "len(s1)"]), 7))
+        if k == 6:
+            return ("len(%s)" % self.string(d - 1)[0], 7)
+        if k == 7:
+            return ("xs[%s]" % self.nonconst(self.integer(d - 1)[0]), 7)
+        return ("-" + self.operand(self.integer(d - 1), 6), 6)
+
+    def pure_int(self, d):
+        r = self.r
+        k = r.below(6) if d > 0 else r.below(2)
+        if k == 0:
+            return (r.choice(["i0", "i1", "i2"]), 7)
+        if k == 1:
+            return (str(r.below(4)), 7)
+        if k == 2:
+            return self.binary(r.choice(["+", "-", "*"]), self.pure_int(d - 1), self.pure_int(d - 1))
+        if k == 3:
+            return self.binary(r.choice(["/", "%"]), self.pure_int(d - 1), (r.choice(["i0", "i1", "i2", "xs[0]"]), 7))
+        if k == 4:
+            return ("xs[%s]" % self.nonconst(self.pure_int(d - 1)[0]), 7)
+        return ("in.o.Mid.C", 7)
+
+    def string(self, d):
+        r = self.r
+        k = r.below(7) if d > 0 else r.below(3)
+        if k == 0:
+            return (r.choice(["s0", "s1"]), 7)
+        if k == 1:
+            return (r.choice(['"a"', '"b"', '""', '"ab"']), 7)
+        if k == 2:
+            return ("ts(%d, %s)" % (self.tid(), r.choice(["s0", "s1", '"a"'])), 7) if self.effects else ("s1", 7)
+        if k in (3, 4):
+            return self.binary("+", self.string(d - 1), self.string(d - 1))
+        if k == 5:
+            return ("s0[%s:]" % self.nonconst(self.integer(d - 1)[0]), 7)
+        return ("fmt.Sprint(%s)" % self.integer(d - 1)[0], 7)
+
+    def floating(self, d):
+        r = self.r
+        k = r.below(6) if d > 0 else r.below(2)
+        if k == 0:
+            return (r.choice(["f0", "f1"]), 7)
+        if k == 1:
+            return (r.choice(["2.0", "0.5", "3"]), 7)
+        if k == 2:
+            return ("tf(%d, %s)" % (self.tid(), r.choice(["f0", "f1"])), 7) if self.effects else ("f1", 7)
+        if k in (3, 4):
+            return self.binary(r.choice(["+", "-", "*"]), self.floating(d - 1), self.floating(d - 1))
+        return ("-" + self.operand(self.floating(d - 1), 6), 6)
+
+    def bytes_(self, d):
+        r = self.r
+        k = r.below(4)
+        if k == 0:
+            return (r.choice(["bs0", "bs1"]), 7)
+        if k == 1:
+            return ("[]byte(%s)" % self.string(d - 1)[0], 7)
+        if k == 2:
+            return ("tbs(%d, %s)" % (self.tid(), r.choice(["bs0", "bs1"])), 7) if self.effects else ("bs1", 7)
+        return ("bs0[%s:]" % self.nonconst(self.integer(d - 1)[0]), 7)
+
+
+def ctx_bool(g, e, r):
+    """place a boolean expression text `e` (already a complete expression of precedence p) in a context"""
+    t, p = e
+    k = r.below(6)
+    if k == 0:
+        return "if %s {\n\t\tres += \"T\"\n\t} else {\n\t\tres += \"F\"\n\t}" % t
+    if k == 1:
+        return "res += fmt.Sprint(%s)" % t
+    if k == 2:
+        return "v := %s\n\tres += fmt.Sprint(v)" % t
+    if k == 3:
+        return "res += fmt.Sprint(%s)" % g.binary(r.choice(["&&", "||"]), e, g.boolean(1))[0]
+    if k == 4:
+        return "res += fmt.Sprint(%s)" % g.binary(r.choice(["&&", "||", "==", "!="]), g.boolean(1), e)[0]
+    return "res += fmt.Sprint(!%s)" % g.operand(e, 6)
+
+
+def shape_S1002(g, r):
+    x = g.boolean(2)
+    form = r.below(6)
+    lit = ["true", "false"][r.below(2)]
+    op = ["==", "!="][r.below(2)]
+    if form < 4:
+        e = (g.operand(x, 3) + g.glue(op) + lit, 3)
+    else:
+        e = (lit + g.glue(op) + g.operand(x, 4), 3)
+    return ctx_bool(g, e, r)
+
+
+def shape_S1003(g, r):
+    pkg, arg = r.choice([("strings", g.string), ("bytes", g.bytes_)])
+    fn = "Index"
+    a, b = arg(1)[0], arg(1)[0]
+    if r.chance(1, 4):
+        fn, b = "IndexAny", g.string(1)[0]
+    elif r.chance(1, 4):
+        fn, b = "IndexRune", "'a'"
+    cmp_ = r.choice(["!= -1", "> -1", "== -1", ">= 0", "< 0"])
+    return ctx_bool(g, ("%s.%s(%s, %s) %s" % (pkg, fn, a, b, cmp_), 3), r)
+
+
+def shape_S1004(g, r):
+    return ctx_bool(g, ("bytes.Compare(%s, %s) %s 0" % (g.bytes_(1)[0], g.bytes_(1)[0], r.choice(["==", "!="])), 3), r)
+
+
+def shape_S1010(g, r):
+    if r.chance(1, 2):
+        return "res += fmt.Sprint(xs[%s:len(xs)])" % g.nonconst(g.integer(1)[0])
+    return "res += s0[%s:len(s0)]" % g.nonconst(g.integer(1)[0])
+
+
+def str_ctx(g, t, r):
+    k = r.below(5)
+    if k == 0:
+        return "res += %s" % t
+    if k == 1:
+        return "res += fmt.Sprint(len(%s))" % t
+    if k == 2:
+        return "res += fmt.Sprint(%s == %s)" % (t, g.string(1)[0])
+    if k == 3:
+        return "res += %s + %s" % (g.operand(g.string(1), 4), t)
+    return "res += strings.ToUpper(%s)" % t
+
+
+def shape_S1025(g, r):
+    k = r.below(4)
+    if k == 0:
+        a = g.string(2)[0]
+    elif k == 1:
+        a = "Str(%s)" % g.string(1)[0]
+    elif k == 2:
+        a = r.choice(["Tick(%s)" % g.integer(1)[0], "Tick(i0) + Tick(%s)" % g.integer(1)[0]])
+    else:
+        a = g.bytes_(1)[0]
+    return str_ctx(g, 'fmt.Sprintf("%%s", %s)' % a, r)
+
+
+def shape_S1028(g, r):
+    return 'err := errors.New(fmt.Sprintf("%%d-%%s", %s, %s))\n\tres += err.Error()' % (g.integer(2)[0], g.string(1)[0])
+
+
+def shape_S1030(g, r):
+    return 'var buf bytes.Buffer\n\tbuf.WriteString(%s)\n\t%s' % (g.string(1)[0], str_ctx(g, "string(buf.Bytes())", r))
+
+
+def shape_S1039(g, r):
+    return str_ctx(g, r.choice(['fmt.Sprint("lit")', 'fmt.Sprintf("l\\"it")', 'fmt.Sprintf(`a b`)']), r)
+
+
+def shape_S1005(g, r):
+    k = r.below(4)
+    if k == 0:
+        return "for _ = range xs {\n\t\tres += \"x\"\n\t}"
+    if k == 1:
+        return "for i, _ := range xs {\n\t\tres += fmt.Sprint(i)\n\t}"
+    if k == 2:
+        return "for _, _ = range xs {\n\t\tres += \"y\"\n\t}"
+    return "m := map[string]int{\"a\": 1}\n\tv, _ := m[%s]\n\tres += fmt.Sprint(v)" % g.string(1)[0]
+
+
+def shape_S1021(g, r):
+    k = r.below(3)
+    if k == 0:
+        return "var v int\n\tv = %s\n\tres += fmt.Sprint(v)" % g.integer(2)[0]
+    if k == 1:
+        return "var v string\n\tv = %s\n\tres += v" % g.string(2)[0]
+    return "var v bool\n\tv = %s\n\tres += fmt.Sprint(v)" % g.boolean(2)[0]
+
+
+def shape_S1011(g, r):
+    k = r.below(3)
+    if k == 0:
+        return "var ys []int\n\tfor _, e := range xs {\n\t\tys = append(ys, e)\n\t}\n\tres += fmt.Sprint(ys)"
+    if k == 1:
+        return "ys := []int{%s}\n\tfor i := range xs {\n\t\tys = append(ys, xs[i])\n\t}\n\tres += fmt.Sprint(ys)" % g.integer(1)[0]
+    return "var ys []int\n\tfor i := range xs {\n\t\te := xs[i]\n\t\tys = append(ys, e)\n\t}\n\tres += fmt.Sprint(ys)"
+
+
+def shape_S1033(g, r):
+    return "m := map[string]int{\"a\": 1, \"b\": 2}\n\tif _, ok := m[s0]; ok {\n\t\tdelete(m, s0)\n\t}\n\tres += fmt.Sprint(len(m))"
+
+
+def shape_S1036(g, r):
+    k = r.below(3)
+    if k == 0:
+        return ("m := map[string][]int{\"a\": {1}}\n\tif _, ok := m[s0]; ok {\n\t\tm[s0] = append(m[s0], %s)\n\t} else {\n\t\tm[s0] = []int{%s}\n\t}\n"
+                "\tres += fmt.Sprint(m[\"a\"], m[\"b\"], len(m))") % (("i0",) * 2)
+    if k == 1:
+        return ("m := map[string]int{\"a\": 1}\n\tif _, ok := m[s0]; ok {\n\t\tm[s0] += i1\n\t} else {\n\t\tm[s0] = i1\n\t}\n"
+                "\tres += fmt.Sprint(m[\"a\"], m[\"b\"], len(m))")
+    return ("m := map[string]int{\"a\": 1}\n\tif _, ok := m[s0]; ok {\n\t\tm[s0]++\n\t} else {\n\t\tm[s0] = 1\n\t}\n"
+            "\tres += fmt.Sprint(m[\"a\"], m[\"b\"], len(m))")
+
+
+def shape_QF1001(g, r):
+    a, b = g.boolean(2), g.boolean(2)
+    inner = g.binary(r.choice(["&&", "||"]), a, b)
+    e = ("!(" + inner[0] + ")", 6)
+    return ctx_bool(g, e, r)
+
+
+def shape_QF1002(g, r):
+    x = g.pure_int(1)[0]
+    ys = [g.pure_int(1)[0] for _ in range(4)]
+    return ("switch {\n\tcase %s == %s:\n\t\tres += \"a\"\n\tcase %s == %s || %s == (%s):\n\t\tres += \"b\"\n\tdefault:\n\t\tres += \"d\"\n\t}"
+            % (x, ys[0], x, ys[1], x, ys[2]))
+
+
+def shape_QF1003(g, r):
+    x = g.operand(g.pure_int(1), 4)
+    ys = [g.operand(g.pure_int(1), 4) for _ in range(4)]
+    els = r.choice(["", " else {\n\t\tres += \"e\"\n\t}"])
+    return ("if %s == %s {\n\t\tres += \"a\"\n\t} else if %s == %s || %s == %s {\n\t\tres += \"b\"\n\t}%s" % (x, ys[0], x, ys[1], x, ys[2], els))
+
+
+def shape_QF1004(g, r):
+    k = r.below(3)
+    if k == 0:
+        return "res += strings.Replace(%s, %s, %s, -1)" % (g.string(1)[0], g.string(1)[0], g.string(1)[0])
+    if k == 1:
+        return "res += string(bytes.Replace(%s, %s, %s, -1))" % (g.bytes_(1)[0], g.bytes_(1)[0], g.bytes_(1)[0])
+    return "res += fmt.Sprint(strings.SplitN(%s, %s, -1))" % (g.string(1)[0], g.string(1)[0])
+
+
+def shape_QF1005(g, r):
+    gp = ExprGen(r, effects=False)
+    x = gp.floating(2)[0]
+    n = r.choice(["2", "3", "1", "0"])
+    call = "math.Pow(%s, %s)" % (x, n)
+    k = r.below(6)
+    if k == 0:
+        return "res += fmt.Sprint(%s)" % call
+    if k == 1:
+        return "res += fmt.Sprint(%s / %s)" % (gp.operand(gp.floating(1), 5), call)
+    if k == 2:
+        return "res += fmt.Sprint(%s - %s)" % (gp.operand(gp.floating(1), 4), call)
+    if k == 3:
+        return "res += fmt.Sprint(-%s)" % call
+    if k == 4:
+        return "res += fmt.Sprint(%s * %s)" % (call, gp.operand(gp.floating(1), 6))
+    return "res += fmt.Sprint(%s < %s)" % (call, gp.operand(gp.floating(1), 4))
+
+
+def shape_QF1006(g, r):
+    c = g.boolean(2)[0]
+    return "n := 0\n\tfor {\n\t\tif n > 3 || %s {\n\t\t\tbreak\n\t\t}\n\t\tn++\n\t\tres += \"x\"\n\t}" % g.operand((c, 0), 2) if r.chance(1, 2) else \
+        "n := 0\n\tfor {\n\t\tif %s {\n\t\t\tbreak\n\t\t}\n\t\tn++\n\t\tif n > 3 {\n\t\t\tbreak\n\t\t}\n\t\tres += \"x\"\n\t}" % c
+
+
+def shape_QF1007(g, r):
+    c = g.boolean(2)[0]
+    a, b = r.choice([("true", "false"), ("false", "true")])
+    return "v := %s\n\tif %s {\n\t\tv = %s\n\t}\n\tres += fmt.Sprint(v)" % (a, c, b)
+
+
+def shape_QF1008(g, r):
+    return "o := in.o\n\tres += fmt.Sprint(%s)" % r.choice(["o.Mid.Inner.A", "o.Mid.C + o.Mid.Inner.B", "o.Mid.Inner.A * in.o.Mid.Inner.B", "o.Mid.Inner"])
+
+
+def shape_QF1012(g, r):
+    k = r.below(3)
+    args = '"%%d-%%s", %s, %s' % (g.integer(1)[0], g.string(1)[0])
+    if k == 0:
+        return "var buf bytes.Buffer\n\tbuf.Write([]byte(fmt.Sprintf(%s)))\n\tres += buf.String()" % args
+    if k == 1:
+        return "buf := &bytes.Buffer{}\n\tbuf.WriteString(fmt.Sprintf(%s))\n\tres += buf.String()" % args
+    return "var sb strings.Builder\n\tsb.WriteString(fmt.Sprint(%s, %s))\n\tres += sb.String()" % (g.integer(1)[0], g.string(1)[0])
+
+
+SHAPES = {
+    "S1002": shape_S1002, "S1003": shape_S1003, "S1004": shape_S1004, "S1005": shape_S1005, "S1010": shape_S1010,
+    "S1011": shape_S1011, "S1021": shape_S1021, "S1025": shape_S1025, "S1028": shape_S1028, "S1030": shape_S1030,
+    "S1033": shape_S1033, "S1036": shape_S1036, "S1039": shape_S1039,
+    "QF1001": shape_QF1001, "QF1002": shape_QF1002, "QF1003": shape_QF1003, "QF1004": shape_QF1004, "QF1005": shape_QF1005,
+    "QF1006": shape_QF1006, "QF1007": shape_QF1007, "QF1008": shape_QF1008, "QF1012": shape_QF1012,
+}
+GEN_IMPORTS = ["bytes", "errors", "fmt", "math", "strings"]
+# equivalent rewrites whose behaviour is compared (QF1009/QF1010 change behaviour by design and are not generated)
+PROLOGUE = ("b0, b1, b2, i0, i1, i2, f0, f1, s0, s1, xs, bs0, bs1 := in.b0, in.b1, in.b2, in.i0, in.i1, in.i2, in.f0, in.f1, in.s0, in.s1, in.xs, in.bs0, in.bs1\n"
+            "\t_, _, _, _, _, _, _, _, _, _, _, _, _ = b0, b1, b2, i0, i1, i2, f0, f1, s0, s1, xs, bs0, bs1")
+
+
+def gen_file(rng, tag, per_shape, renamed, crlf):
+    """one generated source file; returns (text, [(fname, shape, first_line, last_line)])"""
+    imports = []
+    alias = {}
+    for p in GEN_IMPORTS:
+        if renamed and p in ("strings", "bytes", "errors", "math"):
+            alias[p] = "x" + p
+            imports.append('\t%s "%s"' % (alias[p], p))
+        else:
+            imports.append('\t"%s"' % p)
+    head = "package main\n\nimport (\n%s\n)\n\nvar _ = []any{bytes.Compare, errors.New, fmt.Sprint, math.Pow, strings.Index}\n\n" % "\n".join(imports)
+    body = []
+    funcs = []
+    line = head.count("\n") + 1
+    for shape in sorted(SHAPES):
+        for k in range(per_shape):
+            r = rng.fork("%s/%s/%d" % (tag, shape, k))
+            g = ExprGen(r)
+            name = "F%s_%s_%d" % (tag, shape, k)
+            text = "func %s(in In) (res string) {\n\t%s\n\t%s\n\treturn res\n}\n\n" % (name, PROLOGUE, SHAPES[shape](g, r))
+            n = text.count("\n")
+            funcs.append((name, shape, line, line + n - 2))
+            body.append(text)
+            line += n
+    table = "func init() {\n" + "".join("\tfuncs = append(funcs, fn{%q, %s})\n".replace("%q", '"%s"') % (f[0], f[0]) for f in funcs) + "}\n"
+    text = head + "".join(body) + table
+    for p, a in alias.items():
+        text = re.sub(r"\b%s\." % p, a + ".", text)
+    if crlf:
+        text = text.replace("\n", "\r\n")
+    return text, funcs
+
+
+def gen_shapes(ctx, genbin=None):
+    rng = vlib.SplitMix(ctx.seed).fork("shapes")
+    per = 3 if ctx.quick else 14
+    d = os.path.dirname(ctx.path("gen", "src", "go.mod"))
+    open(os.path.join(d, "go.mod"), "w").write("module example.com/gen\ngo 1.21\n")
+    open(os.path.join(d, "support.go"), "w").write(GEN_SUPPORT + "\nvar funcs []fn\n")
+    funcs = {}
+    for tag, renamed, crlf in (("a", False, False), ("b", True, True)):
+        text, fs = gen_file(rng, tag, per, renamed, crlf)
+        fn_ = os.path.join(d, "gen_%s.go" % tag)
+        with open(fn_, "w", newline="") as f:
+            f.write(text)
+        funcs[fn_] = fs
+    cf = os.path.join(vlib.VERIF, "corpus", "C16", "regress.go")
+    if os.path.exists(cf):
+        text = open(cf).read()
+        fs, cur = [], None
+        for ln, l in enumerate(text.split("\n"), 1):
+            m_ = re.match(r"func (R_(\w+?)_\d+)\(in In\)", l)
+            if m_:
+                cur = (m_.group(1), m_.group(2), ln)
+            elif l == "}" and cur:
+                fs.append((cur[0], cur[1], cur[2], ln))
+                cur = None
+        text += "\nfunc init() {\n" + "".join('\tfuncs = append(funcs, fn{"%s", %s})\n' % (f[0], f[0]) for f in fs) + "}\n"
+        fn_ = os.path.join(d, "gen_c.go")
+        open(fn_, "w").write(text)
+        funcs[fn_] = fs
+    job = {"id": "generated/shapes", "dir": d, "patterns": ["."], "tests": False, "env": ["GOFLAGS=-mod=mod", "GOPROXY=off", "GO111MODULE="],
+           "typecheck": True, "variant": "generated", "weight": 1, "gover": "1.21"}
+    shape_of = {}
+    for fn_, fs in funcs.items():
+        for (name, shape, l0, l1) in fs:
+            for l in range(l0, l1 + 1):
+                shape_of[(fn_, l)] = ("corpus:" if name.startswith("R_") else "gen:") + shape
+    job["shape_of"] = shape_of
+    return {"jobs": [job], "dir": d, "funcs": funcs,
+            "summary": {"functions": sum(len(v) for v in funcs.values()), "per_shape": per, "shapes": sorted(SHAPES),
+                        "files": {"gen_a.go": "LF, plain imports", "gen_b.go": "CRLF, renamed imports"}}}
+
+
+BEHAVIOUR_CATS = set(SHAPES)
+
+
+def build_and_run(ctx, name, srcdir, files):
+    """copy the generated module with `files` overriding, build, run; returns {(func, input): outcome}"""
+    d = os.path.dirname(ctx.path("gen", name, "go.mod"))
+    for fn_ in os.listdir(srcdir):
+        shutil.copyfile(os.path.join(srcdir, fn_), os.path.join(d, fn_))
+    for fn_, data in files.items():
+        with open(os.path.join(d, os.path.basename(fn_)), "wb") as f:
+            f.write(data)
+    exe = os.path.join(d, "prog")
+    rc, so, se = vlib.run([vlib.GO, "build", "-o", exe, "."], cwd=d, env=vlib.go_env(), timeout=600)
+    if rc != 0:
+        return None, se
+    rc, so, se = vlib.run([exe], cwd=d, timeout=300)
+    if rc != 0:
+        raise vlib.HarnessError("generated program %s failed: %s" % (name, se[-1500:]))
+    out = {}
+    for l in so.splitlines():
+        w = l.split(" ", 2)
+        out[(w[0], int(w[1]))] = w[2]
+    return out, ""
+
+
+def run_behaviour(ctx, gen, res, files):
+    job = gen["jobs"][0]
+    o = res[job["id"]]
+    srcdir = gen["dir"]
+    # the fix of the target check inside each generated function
+    chosen = {}     # func -> (diag, file)
+    triggered = {}
+    for d in o["diags"]:
+        f = d["pos"]["file"]
+        if f not in gen["funcs"] or not d.get("fixes"):
+            continue
+        for (name, shape, l0, l1) in gen["funcs"][f]:
+            if l0 <= d["pos"]["line"] <= l1:
+                if d["cat"] == shape and name not in chosen:
+                    chosen[name] = (d, f, shape)
+                    triggered[shape] = triggered.get(shape, 0) + 1
+                break
+    pool = ThreadPoolExecutor(max_workers=5)
+    before_f = pool.submit(build_and_run, ctx, "before", srcdir, {})
+    fails, samples = [], []
+    runs = 0
+    compared = set()
+    skipped_bad_fix = 0
+    maxalt = max([len(d["fixes"]) for d, _, _ in chosen.values()] + [0])
+    by_alt = {}
+
+    def do_alt(alt):
+        edits_by_file = {}
+        owners = {}
+        skipped = 0
+        for name, (d, f, shape) in sorted(chosen.items()):
+            if alt >= len(d["fixes"]):
+                continue
+            fx = d["fixes"][alt]
+            if (fx.get("oracle") or {}).get("status") != "ok":
+                skipped += 1     # already an oracle failure of clause (iii)
+                continue
+            edits_by_file.setdefault(f, []).extend(fx["edits"])
+            owners[name] = (d, fx, shape)
+        if not owners:
+            return alt, owners, {}, skipped
+        patched = {}
+        for f, es in edits_by_file.items():
+            data = get_file(files, f).data
+            out, last = bytearray(), 0
+            for e in sorted(es, key=lambda e: (e["pos"]["off"], e["end"]["off"])):
+                out += data[last:e["pos"]["off"]] + base64.b64decode(e["new"] or "")
+                last = e["end"]["off"]
+            out += data[last:]
+            patched[f] = bytes(out)
+        after, err = build_and_run(ctx, "after%d" % alt, srcdir, patched)
+        if after is None:
+            # "packages the replacement text newly refers to imported": gen_b.go imports its packages
+            # under other names, the fixes name the packages plainly
+            need = {}
+            for m_ in re.finditer(r"\./(gen_\w+\.go):\d+:\d+: undefined: (\w+)", err):
+                if m_.group(2) in GEN_IMPORTS:
+                    need.setdefault(m_.group(1), set()).add(m_.group(2))
+            if need:
+                for f in sorted(set(list(patched) + [os.path.join(srcdir, b) for b in need])):
+                    b = os.path.basename(f)
+                    if b in need:
+                        data = patched.get(f) or open(os.path.join(srcdir, b), "rb").read()
+                        nl = b"\r\n" if b"\r\n" in data[:200] else b"\n"
+                        head, rest = data.split(nl, 1)
+                        patched[f] = head + nl + b"".join(b'import "%s"' % x.encode() + nl for x in sorted(need[b])) + rest
+                after, err = build_and_run(ctx, "after%d" % alt, srcdir, patched)
+        if after is None:
+            # the fixes type-check one by one (oracle) but the program with all of them does not
+            raise vlib.HarnessError("patched generated program (alternative %d) does not compile: %s" % (alt, err[-2000:]))
+        return alt, owners, after, skipped
+
+    results = list(pool.map(do_alt, range(maxalt)))
+    before, err = before_f.result()
+    pool.shutdown()
+    if before is None:
+        raise vlib.HarnessError("generated program does not compile: " + err[-2000:])
+    for alt, owners, after, skipped in results:
+        skipped_bad_fix += skipped
+        for name, (d, fx, shape) in sorted(owners.items()):
+            diff = None
+            for k in range(64):
+                if (name, k) not in before:
+                    break
+                runs += 1
+                if before[(name, k)] != after.get((name, k)):
+                    diff = (k, before[(name, k)], after.get((name, k)))
+                    break
+            compared.add(name)
+            by_alt[alt] = by_alt.get(alt, 0) + 1
+            if diff:
+                fails.append(Failure("behaviour", d["cat"], job, d, fx,
+                                     "fix %r changes behaviour of %s on input #%d: before %s, after %s" % (fx["msg"], name, diff[0], diff[1], diff[2]), alt))
+            elif len(samples) < 3:
+                samples.append({"function": name, "check": d["cat"], "fix": fx["msg"], "input0_outcome": before.get((name, 0))})
+    return {"fails": fails, "runs": runs, "distinct": len(compared),
+            "summary": {"functions_with_target_fix": len(chosen), "triggered_by_shape": dict(sorted(triggered.items())),
+                        "not_triggered_shapes": sorted(set(SHAPES) - set(triggered)),
+                        "functions_compared": len(compared), "compared_by_alternative": by_alt,
+                        "fixes_skipped_failing_clause_iii": skipped_bad_fix, "inputs_per_function": 8},
+            "samples": samples}
+
+
+KIND_TEXT = {
+    "pos": "a reported position does not exist in a Go file of the analysed package",
+    "end-file": "a problem's end is in another file than its start",
+    "end-before": "a problem's end precedes its start",
+    "edit-bounds": "an edit of a suggested fix lies outside its file / ends before it starts",
+    "edit-overlap": "two edits of one suggested fix overlap",
+    "edit-files": "the edits of one suggested fix are not within one file of the package",
+    "fix-parse": "applying a suggested fix yields a file that does not parse",
+    "fix-types": "applying a suggested fix yields a package that does not type-check (imports adjusted)",
+    "behaviour": "applying an equivalent-rewrite fix changes results, panics or visible effects",
+}
+
+
+def why_class(f):
+    """normalised reason: positions, identifiers and literals removed"""
+    w = f.why
+    if f.kind == "behaviour":
+        a = re.search(r'before ("(?:[^"\\]|\\.)*") \[(.*?)\], after ("(?:[^"\\]|\\.)*"|None) \[(.*?)\]', w)
+        if not a:
+            return "differs"
+        if a.group(1) == a.group(3):
+            return "effects-differ"
+        if "PANIC" in a.group(1) or "PANIC" in (a.group(3) or ""):
+            return "panic-differs"
+        return "result-differs"
+    w = re.sub(r"^(/\S+:)?\d+:\d+: ", "", w.split(";")[0])
+    w = re.sub(r"\(and \d+ more errors\)", "", w)
+    for pat, cls in ((r"duplicate case", "duplicate-case"), (r"operator ! not defined", "negation-of-non-bool"),
+                     (r"expected operand, found '--'", "double-minus"), (r"undefined:", "undefined-name"),
+                     (r"declared and not used", "unused-variable"), (r"imported and not used", "unused-import")):
+        if re.search(pat, w):
+            return cls
+    w = re.sub(r"[0-9]+", "N", w)
+    w = re.sub(r"[^A-Za-z ]+", "", w)
+    return "-".join(w.split()[:6])[:60] or f.kind
+
+
+def failure_key(f):
+    """stable key of the failing input class: kind, check, and the generated shape or the
+    testdata file + variant it occurs in"""
+    where = f.job.get("shape_of", {}).get((f.diag["pos"]["file"], f.diag["pos"]["line"])) if f.job.get("shape_of") else None
+    if where:
+        return "%s:%s:%s" % (f.kind, f.cat, why_class(f))
+    return "%s:%s:%s:%s:%s" % (f.kind, f.cat, why_class(f), f.job.get("variant", "?"), os.path.basename(f.diag["pos"]["file"]))
+
+
+def report_failures(ctx, fails, files, known):
+    groups = {}
+    for f in fails:
+        groups.setdefault(failure_key(f), []).append(f)
+    for key, fs in sorted(groups.items()):
+        f = fs[0]
+        obj = {
+            "what": KIND_TEXT.get(f.kind, f.kind), "key": key, "check": f.cat, "count": len(fs),
+            "variant": f.job.get("variant"), "job": f.job["id"],
+            "file": rel_to_corpus(ctx, f.diag["pos"]["file"]), "why": f.why,
+            "position": "%d:%d" % (f.diag["pos"]["line"], f.diag["pos"]["col"]),
+            "end": "%d:%d" % (f.diag["end"]["line"], f.diag["end"]["col"]), "message": f.diag["msg"],
+            "flagged_text": flagged_text(files, f.diag)[:2000], "source_context": snippet(files, f.diag, 3),
+            "fix": None if not f.fix else {"message": f.fix["msg"], "edits": [
+                {"start": e["pos"]["off"], "end": e["end"]["off"], "new": base64.b64decode(e["new"] or "").decode("utf-8", "replace")}
+                for e in f.fix["edits"]], "oracle": f.fix.get("oracle")},
+            "source_file": (get_file(files, f.diag["pos"]["file"]).data.decode("utf-8", "replace")
+                            if get_file(files, f.diag["pos"]["file"]) and get_file(files, f.diag["pos"]["file"]).size < 60000 else None),
+            "how_to_replay": "write source_file as a package in a module `go %s`, run staticcheck -checks %s "
+                             "(quickfix checks: -debug.run-quickfix-analyzers) -f json; apply the suggested fix's edits; "
+                             "or: VERIF_SEED=%d ./check C16 --tier %s" % (f.job.get("gover", "1.21"), f.cat, ctx.seed, ctx.tier),
+            "others": [{"file": rel_to_corpus(ctx, g.diag["pos"]["file"]), "pos": "%d:%d" % (g.diag["pos"]["line"], g.diag["pos"]["col"]), "why": g.why[:300]} for g in fs[1:20]],
+        }
+        kf = [k for k in known if key == k or key.startswith(k + ":")]
+        if kf:
+            ctx.known_finding("key=%s %s (%d occurrence(s) this run, e.g. %s %s)" % (kf[0], known[kf[0]][:160], len(fs), obj["file"], obj["position"]))
+            continue
+        name = re.sub(r"[^A-Za-z0-9_.-]+", "_", key)[:120] + ".json"
+        ctx.violation(name, obj, text="C16 %s: %s — %s at %s:%s: %s" % (f.cat, KIND_TEXT.get(f.kind, f.kind), obj["variant"], obj["file"], obj["position"], f.why[:300]))
+
+
+def sample_units(ctx, units):
+    if not ctx.quick:
+        return units
+    rng = vlib.SplitMix(ctx.seed).fork("units")
+    # checks with fixes are what clause (iii) is about: always keep a share of them
+    fixy = [u for u in units if re.match(r"(s1|qf1)\d+", u[0])]
+    rest = [u for u in units if u not in fixy]
+    n1, n2 = 22, 10
+    pick = rng.shuffle(fixy)[:n1] + rng.shuffle(rest)[:n2]
+    return sorted(pick)
+
+
 def run(ctx):
     if os.environ.get("C16_EXPLORE"):
         explore(ctx)
         return 0
-    raise vlib.HarnessError("not finished")
+    t0 = time.time()
+    timing = {}
+    lean_ok, lean_broke = vlib.std_lean_phase(ctx, MODULES, THEOREMS)
+    timing["lean"] = round(time.time() - t0, 1)
+    with ThreadPoolExecutor(max_workers=4) as ex:
+        futs = [ex.submit(vlib.build_harness, ctx, n) for n in ("c16lint", "c16variant", "c16apply")]
+        lintbin, varbin, applybin = [f.result() for f in futs]
+    timing["build"] = round(time.time() - t0, 1)
+    known = vlib.load_known_findings("C16")
+
+    # ---- corpus: testdata units and their variants
+    all_units = list_units(vlib.REPO)
+    units = sample_units(ctx, all_units)
+    if ctx.quick:
+        variants = ["base", VARIANTS[1 + vlib.SplitMix(ctx.seed).fork("variant").below(len(VARIANTS) - 1)]]
+    else:
+        variants = list(VARIANTS)
+    bundles = plan_bundles(units)
+    stats = {}
+    jobs = []
+    for v in variants:
+        jobs += materialise(ctx, varbin, v, bundles, ctx.seed, stats)
+    for j in jobs:
+        j["weight"] = sum(len(fs) for _, _, fs in os.walk(j["dir"]))
+        j["gover"] = re.search(r"go(1\.\d+)_", j["id"]).group(1)
+    # ---- generated trigger shapes
+    gen = gen_shapes(ctx)
+    jobs += gen["jobs"]
+    timing["corpus"] = round(time.time() - t0, 1)
+
+    # one small job first: it fills the shared cache with the facts of the standard library
+    jobs.sort(key=lambda j: j["weight"])
+    res = run_lint_jobs(ctx, lintbin, jobs[:1], 1)
+    res.update(run_lint_jobs(ctx, lintbin, jobs[1:], 6 if ctx.quick else 8))
+    timing["lint"] = round(time.time() - t0, 1)
+
+    files = {}
+    acc = new_acc()
+    fails = []
+    for j in jobs:
+        o = res.get(j["id"])
+        if o is None or o.get("error"):
+            raise vlib.HarnessError("c16lint job %s failed: %s" % (j["id"], (o or {}).get("error", "no output")[:1500]))
+        fails += validate_job(ctx, j, o, files, acc)
+
+    # ---- behaviour of equivalent-rewrite fixes on the generated functions
+    beh = run_behaviour(ctx, gen, res, files)
+    fails += beh["fails"]
+    timing["behaviour"] = round(time.time() - t0, 1)
+
+    # ---- ties
+    npos, pos_diffs = tie_positions(ctx, files, acc, maxfiles=60 if ctx.quick else None)
+    nfix, napart, edit_diffs = tie_edits(ctx, files, acc)
+    ngen, edit_hist, gen_edit_diffs, edit_samples = tie_generated_edits(ctx, applybin, 1500 if ctx.quick else 20000)
+    gofiles = sorted(f for f in files if files[f] is not None and f.endswith(".go") and "/corpus/" in f)
+    if ctx.quick and len(gofiles) > 60:
+        gofiles = vlib.SplitMix(ctx.seed).fork("shortfiles").shuffle(gofiles)[:60]
+    nshort, short_kinds, short_diffs, short_viol, inv_fail = tie_short(ctx, applybin, gofiles)
+    ngpos, gpos_diffs, gpos_viol = tie_generated_pos(ctx, applybin, 1000 if ctx.quick else 10000)
+    timing["ties"] = round(time.time() - t0, 1)
+
+    # ---- report
+    report_failures(ctx, fails, files, known)
+    for v in short_viol[:5]:
+        ctx.violation("shortrange_%s.json" % v["node"].split()[0], dict(v, what="report.shortRange yields a range outside the node",
+                      how_to_replay="echo 'shortfile <file>' | harness/cmd/c16apply"),
+                      text="C16: shortRange outside its node: %s" % v["node"])
+    for v in gpos_viol[:3]:
+        ctx.violation("position_generated.json", dict(v, what="go/token position does not exist in the file"), text="C16: generated file: %s" % v["why"])
+    broke = {}
+    if not lean_ok:
+        broke["lean"] = lean_broke
+    for name, d in (("positions: model vs runner (go/token via DisplayPosition)", pos_diffs),
+                    ("fix application: model vs testutil.applyEdits on the real fixes", edit_diffs),
+                    ("fix application: model vs testutil.applyEdits on generated edit sets", gen_edit_diffs),
+                    ("shortRange: model vs report.shortRange", short_diffs),
+                    ("parser invariants assumed by shortRange_within (Inv) on corpus nodes", inv_fail),
+                    ("positions: model vs go/scanner+go/token on generated files", gpos_diffs)):
+        if d:
+            broke[name] = d[:20]
+    if broke and not ctx.violations:
+        ctx.violation("correspondence.json", {
+            "what": "the Lean model no longer corresponds to the code (or a proof no longer checks), but every explored "
+                    "diagnostic and fix satisfied the property",
+            "streams": broke, "theorems": THEOREMS}, nofail=True,
+            text="C16: model/proof broke: %s" % ", ".join(sorted(broke)))
+    elif broke:
+        ctx.notes.append({"correspondence_also_broken": {k: v[:3] if isinstance(v, list) else v for k, v in broke.items()}})
+
+    nontrivial = len(acc["nontrivial"])
+    ctx.coverage.update({
+        "evaluations": acc["diagnostics"] + acc["fixes"] + ngen + nshort + ngpos + beh["runs"],
+        "distinct_nontrivial": nontrivial + beh["distinct"],
+        "rule": "a distinct (file, start, end, check, message) diagnostic that has an end position or a suggested fix, "
+                "plus distinct generated functions whose fix was executed before/after on inputs",
+        "units_total": len(all_units), "units_run": len(units), "variants": variants, "variant_stats": stats,
+        "jobs": len(jobs), "packages": acc["packages"], "packages_failed_to_build": acc["packages_failed"],
+        "diagnostics": acc["diagnostics"], "diagnostics_with_end": acc["with_end"], "diagnostics_by_check": len(acc["by_cat"]),
+        "exempt_line_directive": acc["exempt_line_directive"],
+        "fixes": acc["fixes"], "fixes_by_check": dict(sorted(acc["fix_by_cat"].items())), "fix_oracle_status": acc["oracle_status"],
+        "fixes_imports_dropped": acc["imports_dropped"], "fixes_imports_added": acc["imports_added"],
+        "oracle_failures": len(fails),
+        "tie_positions_checked": npos, "tie_fixes_checked": nfix, "tie_fixes_without_touching_insertions": napart,
+        "tie_generated_edit_sets": ngen, "generated_edit_sets": edit_hist,
+        "tie_shortrange_nodes": nshort, "shortrange_kinds": dict(sorted(short_kinds.items())),
+        "tie_generated_position_files": ngpos,
+        "generated_shapes": gen["summary"], "behaviour": beh["summary"],
+        "samples": [{"diagnostic": list(x)} for x in sorted(acc["nontrivial"])[:: max(1, nontrivial // 5)][:5]] + [{"edit_case": l[:200]} for l in edit_samples[:2]] + beh["samples"][:3],
+        "timing_s": timing,
+        "programs": len(units) * len(variants) + gen["summary"].get("functions", 0), "disagreements_checked": len(broke),
+    })
+    ctx.assumptions += [
+        "go/token (line table, File.Position), go/scanner, go/parser, go/types and go/printer are modelled or used as oracles, not verified",
+        "parses / type-checks is decided by go/parser and go/types on the patched package (imports dropped/added by the harness: "
+        "unused imports removed, std packages named by the replacement text added); explored, not proved",
+        "behaviour preservation is proved for the Lean rewrite rules (first batch, see META) and explored by running generated "
+        "functions before/after the fix for the checks listed in coverage.behaviour; other simple/quickfix checks are not covered",
+        "positions remapped by //line directives are exempt (statement); packages containing a //line directive are skipped for clause (i)",
+        "the parser invariants Inv (children nested in parents, keyword offsets) are hypotheses of shortRange_within, validated on every corpus node",
+    ]
+    return vlib.finish(ctx, "proof")
+
+
+META = {
+    "level": "proof",
+    "technique": "Lean 4 theorems over models of go/token positions, report.shortRange/getRange, the repository's fix applier and "
+                 "a first batch of rewrite rules; executable correspondence with the real runner, testutil.applyEdits and report.shortRange; "
+                 "toolchain oracle (go/parser, go/types, compile-and-run) over testdata packages, their variants and generated trigger shapes",
+    "text": "TODO",
+    "note": "TODO",
+    "design_ref": "DESIGN.md section 5, C16",
+}
